@@ -16,6 +16,7 @@ import (
 
 	"github.com/wokdav/gopki/generator/cert"
 
+	"github.com/wokdav/gopki/generator/db"
 	"github.com/wokdav/gopki/generator/db/filesystem"
 
 	"verif/mc/engine"
@@ -83,6 +84,14 @@ func c17Enumerate(tier string, yield func(any)) {
 	}
 	for _, f := range c17RSAFixtures {
 		yield(&c17Case{Kind: "rsa", RSA: f})
+	}
+	// the write side: every subset of {certificate, key, request} put through the database, fresh and over an older file
+	for _, blocks := range []string{"c", "k", "r", "ck", "cr", "kr", "ckr"} {
+		for _, kf := range []string{"P-256-0", "RSA-2048-0", "brainpoolP384r1-0"} {
+			for _, over := range []bool{false, true} {
+				yield(&c17Case{Kind: "put", Blocks: blocks, KeyFix: kf, Hash: over})
+			}
+		}
 	}
 	// artifact files: subsets x orders x hash line
 	orders := []string{"", "c", "k", "r", "ck", "kc", "cr", "rc", "kr", "rk", "ckr", "crk", "kcr", "krc", "rck", "rkc"}
@@ -203,7 +212,94 @@ func c17Exec(x *engine.Ctx, cc any) {
 		c17File(x, c)
 	case "reject":
 		c17Reject(x, c)
+	case "put":
+		c17Put(x, c)
 	}
+}
+
+// c17Put: the write side of the artifact file through the database interface: an artifact holding any subset of
+// certificate, key and request is put, and a fresh database opened on the same files returns the same objects.
+func c17Put(x *engine.Ctx, c *c17Case) {
+	certDER, keyDER, reqDER, err := c17Objects(c.KeyFix)
+	if err != nil {
+		x.Cap("cannot build file objects: " + err.Error())
+		return
+	}
+	full, err := cert.ReadPem(append(append(refx509.EncodePem("CERTIFICATE", certDER), refx509.EncodePem("PRIVATE KEY", keyDER)...), refx509.EncodePem("CERTIFICATE REQUEST", reqDER)...))
+	if err != nil {
+		x.Violation("C17/put/read-error", err.Error())
+		return
+	}
+	has := func(b string) bool { return strings.Contains(c.Blocks, b) }
+	var art db.BuildArtifact
+	if has("c") {
+		art.Certificate = full.Certificate
+	}
+	if has("k") {
+		art.PrivateKey = full.PrivateKey
+	}
+	if has("r") {
+		art.Request = full.Request
+	}
+	w := simfs.New(simfs.TickPerWrite)
+	w.Put("ent.yaml", []byte("version: 1\nsubject: CN=file test\n"))
+	if c.Hash {
+		// an older artifact is there already: what is put replaces it
+		w.Put("ent.pem", FixtureKeyPEM("P-224-1"))
+	}
+	x.Nontrivial(fmt.Sprintf("put %q %v %s", c.Blocks, c.Hash, c.KeyFix))
+	feat := fmt.Sprintf("blocks=%s over-existing=%v", sortBlocks(c.Blocks), c.Hash)
+	fsdb := filesystem.NewFilesystemDatabase(w)
+	if err := fsdb.Open(); err != nil {
+		x.Violation("C17/put/open-error "+feat, err.Error())
+		return
+	}
+	w.BeginRun(nil)
+	if err := fsdb.PutBuildArtifact("ent", art); err != nil {
+		x.Violation("C17/put/error "+feat, err.Error())
+		return
+	}
+	fsdb.Close()
+	again := filesystem.NewFilesystemDatabase(w)
+	if err := again.Open(); err != nil {
+		x.Violation("C17/put/reopen-error "+feat, err.Error())
+		return
+	}
+	defer again.Close()
+	a, err := again.GetBuildArtifact("ent")
+	if err != nil {
+		x.Violation("C17/put/no-artifact "+feat, fmt.Sprint(err))
+		return
+	}
+	if a == nil {
+		a = &db.BuildArtifact{}
+	}
+	wantReq := has("r") && !has("k") // the directory import keeps a request only for an entity without key (C14)
+	if (a.Certificate != nil) != has("c") || (a.PrivateKey != nil) != has("k") || (a.Request != nil) != wantReq {
+		x.Violation("C17/put/objects-present "+feat, fmt.Sprintf("put cert=%v key=%v req=%v; a database opened on the files afterwards has cert=%v key=%v req=%v", has("c"), has("k"), has("r"), a.Certificate != nil, a.PrivateKey != nil, a.Request != nil))
+		return
+	}
+	if a.Certificate != nil {
+		if b, err := asn1.Marshal(*a.Certificate); err != nil || !bytes.Equal(b, certDER) {
+			x.Violation("C17/put/certificate-changed "+feat, fmt.Sprintf("re-marshalled certificate differs (err %v)", err))
+		}
+	}
+	if a.Request != nil {
+		if b, err := asn1.Marshal(*a.Request); err != nil || !bytes.Equal(b, reqDER) {
+			x.Violation("C17/put/request-changed "+feat, fmt.Sprintf("re-marshalled request differs (err %v)", err))
+		}
+	}
+	if a.PrivateKey != nil {
+		var buf bytes.Buffer
+		if err := cert.WritePrivateKeyToPem(a.PrivateKey, &buf); err != nil {
+			x.Violation("C17/put/key-unwritable "+feat, err.Error())
+		} else if k1, e1 := refx509.ParsePKCS8(refx509.SplitPem(buf.Bytes()).KeyDER); e1 != nil {
+			x.Violation("C17/put/key-unreadable "+feat, e1.Error())
+		} else if k0, _ := refx509.ParsePKCS8(keyDER); k0 == nil || k0.Ident() != k1.Ident() {
+			x.Violation("C17/put/key-changed "+feat, "the key read back is another key")
+		}
+	}
+	x.Outcome("put and read back")
 }
 
 func isNIST(name string) bool { return strings.HasPrefix(name, "P-") }
@@ -750,7 +846,7 @@ func init() {
 	register(&engine.Check{
 		ID:          "C17",
 		Level:       "exploration",
-		Rule:        "10 curves x boundary scalars (1,2,3,n-1,n-2,n/2, the largest and smallest value of every octet length 1..len-1, i.e. every number of leading zero octets, 8 mid-range; 70..150 per curve) through cert.WritePrivateKeyToPem -> cert.ReadPem, the reference PKCS#8 decoder, crypto/x509 in both directions (NIST) , 8 reference-built PKCS#8 layouts (curve OID outer / inner / both, with and without embedded public key, compressed public point) and the minimal-length (leading zeros stripped) and zero-padded (1, 2, 3, 8 extra octets) encodings; 10 RSA fixture keys 1024..4096; artifact files for all 16 block orders over {cert,key,request} x hash line x 4 key types through cert.ReadPem, and the 15 non-empty orders as an entity's artifact read by opening the directory with the hash line first / after the first block / last and with a blank line at the end, the same with RSA-4096 and RSA-8192 keys (files of 4 to 8 KB), and 11 orders with a damaged key block among valid blocks (must be reported); 6 pairs of artifact contents written over one another (long, short, long, short) through gopki's native filesystem and read back; rejection inputs: scalar 0, n, n+1, 2^(8len)-1, unknown/missing curve, ECPrivateKey version 0/2, swapped RSA/EC bodies, unknown algorithm, every strict prefix of a valid EC key per curve and of an RSA key, PEM around non-DER, and SEC1 / PKCS#1 / encrypted key blocks (an error or the key, never silently nothing). non-trivial = distinct case that reached a comparison",
+		Rule:        "10 curves x boundary scalars (1,2,3,n-1,n-2,n/2, the largest and smallest value of every octet length 1..len-1, i.e. every number of leading zero octets, 8 mid-range; 70..150 per curve) through cert.WritePrivateKeyToPem -> cert.ReadPem, the reference PKCS#8 decoder, crypto/x509 in both directions (NIST) , 8 reference-built PKCS#8 layouts (curve OID outer / inner / both, with and without embedded public key, compressed public point) and the minimal-length (leading zeros stripped) and zero-padded (1, 2, 3, 8 extra octets) encodings; 10 RSA fixture keys 1024..4096; artifact files for all 16 block orders over {cert,key,request} x hash line x 4 key types through cert.ReadPem, and the 15 non-empty orders as an entity's artifact read by opening the directory with the hash line first / after the first block / last and with a blank line at the end, the same with RSA-4096 and RSA-8192 keys (files of 4 to 8 KB), and 11 orders with a damaged key block among valid blocks (must be reported); 6 pairs of artifact contents written over one another (long, short, long, short) through gopki's native filesystem and read back; rejection inputs: scalar 0, n, n+1, 2^(8len)-1, unknown/missing curve, ECPrivateKey version 0/2, swapped RSA/EC bodies, unknown algorithm, every strict prefix of a valid EC key per curve and of an RSA key, PEM around non-DER, and SEC1 / PKCS#1 / encrypted key blocks (an error or the key, never silently nothing). non-trivial = distinct case that reached a comparison; the write side through the database interface: every non-empty subset of {certificate, key, request} put for 3 key types, into an empty place and over an older file, and read back by a database opened afresh on the same files",
 		Bound:       map[string]string{"scalars": "boundary values only (any valid scalar is unbounded)", "rsa": "fixture keys 1024,1536,2048,3072,4096 (two each)"},
 		Assumptions: []string{"outer PKCS#8 version and trailing bytes after a complete DER value are not in the rejection alphabet (neither gopki nor the standard library rejects them)", "crypto/x509 is the 'standard library parser' of the statement"},
 		Budget:      budgets(quickBudget, thoroughBudget),
